@@ -13,9 +13,8 @@
 (* The built message is interpreted by CopyTo.tla / CopyFrom.tla /         *)
 (* Schema.tla and is the structure the Contract clauses quantify over.     *)
 (***************************************************************************)
-EXTENDS Naturals, Sequences, FiniteSets, TLC, Names, Values, Quirks
+EXTENDS Naturals, Sequences, FiniteSets, TLC, SequencesExt, Names, Values, Quirks
 
-Range(s) == {s[i] : i \in DOMAIN s}
 
 \* ---- configuration look-ups (cfg lists are sequences of [k, v] records)
 KVHas(kvs, key) == \E i \in DOMAIN kvs : kvs[i].k = key
